@@ -558,6 +558,22 @@ def apply_mo(m, op, i, modict, odict):
             r = enc_mobj(c, cls)
             c["zz"] = 1
             return r
+        if t == "sift":
+            c = m.sift() if op[1] is None else m.sift([K(k) for k in op[1]])
+            r = enc_mobj(c, cls)
+            if c is m:
+                r += [-95]
+            c["zz"] = 1
+            for l in dict.values(c):
+                if isinstance(l, list):
+                    l.append(77)     # the sifted modict owns its value lists
+            return r
+        if t == "insert":
+            m.insert(op[1], K(op[2]), op[3]); return [0]
+        if t == "reorder":
+            m.reorder(modict(dec_ps(op[1]))); return [0]
+        if t == "reordero":
+            m.reorder(odict(dec_ps(op[1]))); return [0]
         raise RuntimeError("unknown op %r" % (op,))
     except RuntimeError:
         raise
@@ -606,6 +622,10 @@ def c_mop(op):
     if t == "clear": return "MClear"
     if t == "copy": return "MCopy"
     if t == "pickle": return "MPickle"
+    if t == "sift": return "MSift None" if op[1] is None else "MSift (Some %s)" % c_l(op[1])
+    if t == "insert": return "MInsert %s %s %s" % (z(op[1]), z(op[2]), z(op[3]))
+    if t == "reorder": return "MReorder %s" % c_ps(op[1])
+    if t == "reordero": return "MReorderO %s" % c_ps(op[1])
     raise RuntimeError(op)
 
 
@@ -634,7 +654,7 @@ def mo_violation(modict, odict, ps0, ops):
     for i, op in enumerate(ops):
         t = op[0]
         want = "skip"
-        k = op[1] if len(op) > 1 and isinstance(op[1], int) and t not in ("popitem", "poplistitem") else None
+        k = op[1] if len(op) > 1 and isinstance(op[1], int) and t not in ("popitem", "poplistitem", "insert") else None
         j = find(k) if k is not None else -1
         if t == "add": add(k, op[2]); want = [0]
         elif t == "get": want = [8, 0] if j < 0 else [2, L[j][1][-1]]
@@ -676,6 +696,32 @@ def mo_violation(modict, odict, ps0, ops):
             want = [0]
         elif t == "clear": del L[:]; want = [0]
         elif t in ("copy", "pickle"): want = [11] + enc_lps([(p[0], p[1]) for p in L])
+        elif t == "sift":
+            if op[1] is None: want = [11] + enc_lps([(p[0], p[1]) for p in L])
+            elif any(find(f) < 0 for f in op[1]): want = [8, 0]
+            else:
+                fs = []
+                for f in op[1]:
+                    if f not in fs: fs.append(f)
+                want = [11] + enc_lps([(f, L[find(f)][1]) for f in fs])     # every value of every field kept
+        elif t == "insert":
+            if find(op[2]) >= 0: want = [8, 0]
+            else: L.insert(op[1], [op[2], [op[3]]]); want = [0]
+        elif t in ("reorder", "reordero"):
+            other = []
+            for a, v in op[1]:
+                for p in other:
+                    if p[0] == a:
+                        if t == "reorder": p[1].append(v)
+                        else: p[1] = [v]
+                        break
+                else:
+                    other.append([a, [v]])
+            for a, vl in other:
+                jj = find(a)
+                if jj >= 0: L.pop(jj)
+                L.append([a, list(vl)])
+            want = [0]
         try:
             with hang_guard():
                 got = apply_mo(m, op, i, modict, odict)
@@ -858,7 +904,7 @@ def od_alphabet(nk):
     A += [("len",), ("keys",), ("values",), ("items",), ("clear",), ("copy",), ("sift", None),
           ("popitem", True), ("popitem", False), ("reorderself",), ("pickle",), ("reversed",),
           ("create", [(0, 3), (1, 4), (2, 5)]), ("reorder", [(2, 1), (1, 2)]), ("reorder", [(1, 1), (0, 2)]),
-          ("update", [(1, 1), (0, 2), (1, 3)]), ("sift", [2, 0]), ("sift", [1, 0, 1])]
+          ("update", [(1, 1), (0, 2), (1, 3)]), ("sift", [2, 0]), ("sift", [1, 0, 1]), ("sift", []), ("sift", [9])]
     return A
 
 
@@ -886,7 +932,10 @@ def gen_mo_op(rng, nk):
     if c in (20, 21): return ("update", ps())
     if c in (22, 23): return ("updatem", ps())
     if c == 24: return ("clear",) if rng.random() < 0.25 else ("copy",)
-    if c == 25: return ("copy",)
+    if c == 25: return rng.choice([("copy",), ("sift", None), ("sift", [k() for _ in range(rng.randint(0, 3))])])
+    if c == 26 and rng.random() < 0.6:
+        return rng.choice([("sift", [k() for _ in range(rng.randint(0, 3))]), ("insert", rng.randint(-3, 4), k(), v()),
+                           ("reorder", ps()), ("reordero", ps())])
     return ("pickle",)
 
 
@@ -899,7 +948,10 @@ def mo_alphabet(nk):
     A += [("popitem", True), ("popitem", False), ("poplistitem", True), ("poplistitem", False), ("len",), ("keys",),
           ("values",), ("items",), ("listitems",), ("allitems",), ("clear",), ("copy",), ("pickle",),
           ("update", [(2, 1), (0, 2), (2, 3)]), ("updatem", [(2, 1), (0, 2), (2, 3)]),
-          ("update", [(0, 4)]), ("update", [(2, 5), (0, 6)])]     # distinct keys: also passed as dict / kwargs / odict
+          ("update", [(0, 4)]), ("update", [(2, 5), (0, 6)]),     # distinct keys: also passed as dict / kwargs / odict
+          ("sift", None), ("sift", []), ("sift", [0]), ("sift", [2, 0]), ("sift", [0, 0]), ("sift", [8]),
+          ("insert", 0, 4, 5), ("insert", -1, 0, 5), ("insert", 1, 2, 5),
+          ("reorder", [(0, 7), (0, 8)]), ("reorder", [(2, 1), (0, 2)]), ("reordero", [(0, 7), (4, 8)])]
     return A
 
 
@@ -969,7 +1021,7 @@ def run(ctx):
         "pickle protocols >= 2 only (the class documents that protocol 2 is required)",
         "CPython's builtin dict / list / pickle / copy semantics are modelled, not verified",
         "the iteration order of the underlying builtin dict is not modelled (no modelled method reads it)",
-        "odict methods insert/sift/reorder/create applied to a modict are outside the modelled op set",
+        "odict.create applied to a modict is outside the modelled op set (it goes through modict.append)",
         "every call into the real classes runs under a CPU-time (1 s per history) and wall-clock (30 s) guard; a call "
         "that does not return is the result class Hang for that step (never produced by the model)",
     ]
@@ -1005,7 +1057,7 @@ def run(ctx):
             ctx.case({"class": nm, "init": ini, "ops": ops}, nontrivial=mut(ops, MUT_OD), kind=nm)
     # ---- modict
     MUT_MO = ("add", "replace", "setdefault", "pop", "popd", "poplist", "popitem", "poplistitem", "del",
-              "update", "updatem", "clear")
+              "update", "updatem", "clear", "insert", "reorder", "reordero")
     mo_inits = [[], [(0, 1)], [(0, 1), (0, 2), (2, 3)], [(2, 1), (0, 2), (2, 3), (4, 4)]]
     for ini, ops in sequences(ctx, mo_alphabet(2), mo_inits, lambda: gen_mo_op(rng, 3), nr, 25):
         if hangs.get("modict", 0) >= MAX_HANGS:
@@ -1106,6 +1158,12 @@ def family_key(nm, v):
             return "modict-update"
         if t == "pickle":
             return "modict-pickle"
+        if t == "sift":
+            return "modict-sift"
+        if t == "insert":
+            return "modict-insert"
+        if t in ("reorder", "reordero"):
+            return "modict-reorder"
     return "c39-%s-%s" % (nm, t)
 
 
